@@ -339,11 +339,22 @@ def split_trace(trace, parts, outdir):
     return paths
 
 
+MAX_PART_LINES = 20000
+
+
 def validate(trace_module, cfg, trace, workdir, parallel=8, timeout=1800):
     parallel = min(parallel, int(os.environ.get("VERIF_PAR", "8")))
     """V stage: TLC validates the recorded trace. Returns merged verdict dict
     {viol: [[bid, pred, line]], drift: [...], cnt: {...}, lines, states}."""
-    parts = split_trace(trace, parallel, os.path.join(workdir, "parts"))
+    # at most MAX_PART_LINES events per TLC process: the cost per event grows with the position in the trace (viol / drift sets,
+    # the deserialized sequence), a part of 100 000 events of a thorough run did not finish within the time-out
+    try:
+        with open(trace, "rb") as f:
+            total = sum(1 for _ in f)
+    except OSError:
+        total = 0
+    nparts = max(parallel, (total + MAX_PART_LINES - 1) // MAX_PART_LINES)
+    parts = split_trace(trace, nparts, os.path.join(workdir, "parts"))
     if not parts:
         return {"viol": [], "drift": [], "cnt": {"beh": 0, "ev": 0, "checks": 0}, "lines": 0, "states": 0}
 
